@@ -458,6 +458,8 @@ def evaluate__sum(self: XPathFunction, context: ta.ContextType = None) -> ta.One
         zero = 0 if len(self) == 1 else self.get_argument(context, index=1)
         if isinstance(zero, XPathNode):
             zero = self.data_value(zero)
+        elif isinstance(zero, XPathFunction):
+            raise self.error('FOTY0013', "the zero value cannot be a function item")
         return [] if zero is None else zero
 
     if all(isinstance(x, (decimal.Decimal, int)) for x in values):
